@@ -16,7 +16,7 @@ From Pq Require Import Base.Bytes Base.Err Base.ListX Codec.Varint Codec.Zigzag 
   Codec.Hybrid Impl.CVarint Impl.CBitpack Impl.CRle Impl.CDelta
   Codec.Plain Proofs.CodecProofs Proofs.PlainProofs Proofs.HybridProofs
   Codec.Delta Impl.CHybrid Impl.PyPack Proofs.DeltaProofs Proofs.CBitpackProofs Proofs.CRleProofs Proofs.CVarintProofs
-  Proofs.CDeltaProofs Proofs.CBoolProofs Proofs.CHybridProofs Proofs.CPlainProofs.
+  Impl.CEnc Proofs.CDeltaProofs Proofs.CBoolProofs Proofs.CHybridProofs Proofs.CPlainProofs Proofs.CEncProofs.
 Import ListNotations.
 Open Scope N_scope.
 
@@ -166,6 +166,39 @@ Theorem C11_enc_varint_correct : forall x cap, x < 2 ^ 64 -> N.of_nat (length (u
   c_enc_varint x cap = (uleb_enc x, cap - N.of_nat (length (uleb_enc x))).
 Proof. exact enc_varint_correct. Qed.
 Print Assumptions C11_enc_varint_correct.
+
+(* cencoding.encode_bitpacked (int32 accumulator): every width <= 24, every number of values, room for everything:
+   the run header followed by exactly the specification's bit packing of the values (last group not padded) *)
+Theorem C11_encode_bitpacked_correct : forall w vals cap,
+  w <= 24 -> Forall (fun v => v < 2 ^ w) vals ->
+  let n := N.of_nat (length vals) in
+  let header := N.lor (N.shiftl ((n + 7) / 8) 1) 1 in
+  header < 2 ^ 64 ->
+  N.of_nat (length (uleb_enc header ++ bp_enc w vals)) <= cap ->
+  c_encode_bitpacked vals w cap =
+  Ok (uleb_enc header ++ bp_enc w vals, N.of_nat (length (uleb_enc header ++ bp_enc w vals))).
+Proof. exact encode_bitpacked_correct. Qed.
+Print Assumptions C11_encode_bitpacked_correct.
+
+Theorem C11_encode_rle_bp_correct : forall w vals cap (withlength : bool),
+  w <= 24 -> Forall (fun v => v < 2 ^ w) vals ->
+  let n := N.of_nat (length vals) in
+  let header := N.lor (N.shiftl ((n + 7) / 8) 1) 1 in
+  let body := uleb_enc header ++ bp_enc w vals in
+  header < 2 ^ 64 -> N.of_nat (length body) < 2 ^ 32 ->
+  (if withlength then 4 else 0) + N.of_nat (length body) <= cap ->
+  c_encode_rle_bp vals w cap withlength =
+  Ok (map Some ((if withlength then le_enc 4 (N.of_nat (length body)) else []) ++ body),
+      (if withlength then 4 else 0) + N.of_nat (length body)).
+Proof. exact encode_rle_bp_correct. Qed.
+Print Assumptions C11_encode_rle_bp_correct.
+
+(* cencoding.width_from_max_int: the bit length (smallest w with v < 2^w) of every non-negative int64 *)
+Theorem C11_width_from_max_int_correct : forall v, v < 2 ^ 63 ->
+  c_width_from_max_int v = N.size v /\ v < 2 ^ c_width_from_max_int v /\
+  (forall w, v < 2 ^ w -> c_width_from_max_int v <= w).
+Proof. exact width_from_max_int_correct. Qed.
+Print Assumptions C11_width_from_max_int_correct.
 
 (* cencoding.delta_read_bitpacked: a miniblock of 8g values of every width 0 < w <= 28 *)
 Theorem C11_delta_read_bitpacked_correct : forall w g input,
